@@ -72,10 +72,21 @@ func c07CheckGrid(run *ev.Run, tier string) (tables, calls, stricter int, classe
 			return nil
 		}
 		tables++
-		for _, w := range c07Wallets {
-			for _, a := range c07Accounts {
-				for _, op := range c07Ops {
-					for _, cr := range clients {
+		// All questions go to one instance, and the order in which operations and clients are asked alternates from name to
+		// name: an answer remembered under part of the question (the name without the operation, the client without
+		// the name, ...) is then asked for, on some name, after a question whose answer is more permissive.
+		for wi, w := range c07Wallets {
+			for ai, a := range c07Accounts {
+				ops, cls := c07Ops, clients
+				if (wi+ai)%2 == 1 {
+					ops = []string{c07Ops[2], c07Ops[1], c07Ops[0]}
+					cls = nil
+					for i := len(clients) - 1; i >= 0; i-- {
+						cls = append(cls, clients[i])
+					}
+				}
+				for _, op := range ops {
+					for _, cr := range cls {
 						calls++
 						got := svc.Check(ctx, cr, pathOf(w, a), op)
 						client := ""
